@@ -150,4 +150,62 @@ def demoRm : RoleMgr String :=
     .add "b" "c" "DEFAULT", .add "c" "u" "DEFAULT"]
 example : (closureGo (fun n => demoRm.getRoles n "DEFAULT") 6 ["u"] []) = ["b", "a", "c", "u"] := by decide +kernel
 
+
+/-! ### delete_role, and what the delete helpers leave alone -/
+
+/-- a filtered removal touches the rules of its own policy type only -/
+theorem removeFiltered_other (s : Store) (sec pt sec' pt' : String) (idx : Nat) (vals : List String)
+    (h : ¬ (sec = sec' ∧ pt = pt')) :
+    (s.removeFiltered sec pt idx vals).1.getPolicy sec' pt' = s.getPolicy sec' pt' := by
+  unfold Store.removeFiltered
+  split
+  · rfl
+  · cases hf : s.find sec pt with
+    | none => rfl
+    | some d =>
+      simp only
+      split
+      · rfl
+      · rw [Store.getPolicy_update s sec pt sec' pt' (fun pol => pol.filter (fun r => !filterMatch idx vals r))]
+        simp [h]
+
+/-- after a filtered removal on one value, no rule of that type carries the value at that position -/
+theorem removeFiltered_post (s : Store) (sec pt : String) (idx : Nat) (n : String) (hn : n ≠ "") :
+    ∀ rule ∈ (s.removeFiltered sec pt idx [n]).1.getPolicy sec pt, rule[idx]? ≠ some n := by
+  intro rule hrule
+  cases hf : s.find sec pt with
+  | none =>
+    have : (s.removeFiltered sec pt idx [n]).1 = s := by simp [Store.removeFiltered, hf]
+    rw [this] at hrule; simp [Store.getPolicy, hf] at hrule
+  | some d =>
+    have := (C04.removeFiltered_target s sec pt idx [n] d hf (by simp)).1
+    rw [this] at hrule
+    have := (List.mem_filter.mp hrule).2
+    intro h0
+    simp [filterMatch, List.zipIdx, hn, h0] at this
+
+/-- **delete_role** (store level, adapter not vetoing): afterwards no grouping rule carries the name in the role
+position and no permission rule carries it in the subject position -/
+theorem deleteRole_post (s : Store) (n : String) (hn : n ≠ "") :
+    let s1 := (s.removeFiltered "g" "g" 1 [n]).1
+    let s2 := (s1.removeFiltered "p" "p" 0 [n]).1
+    (∀ rule ∈ s2.getPolicy "g" "g", rule[1]? ≠ some n) ∧ (∀ rule ∈ s2.getPolicy "p" "p", rule[0]? ≠ some n) := by
+  intro s1 s2
+  refine ⟨?_, removeFiltered_post s1 "p" "p" 0 n hn⟩
+  intro rule hrule
+  simp only [s2] at hrule
+  rw [removeFiltered_other s1 "p" "p" "g" "g" 0 [n] (by decide)] at hrule
+  exact removeFiltered_post s "g" "g" 1 n hn rule hrule
+
+/-- **the delete helpers speak about `g` and `p` only**: every other role definition and every other policy type
+keeps its rules, in order (`delete_user`: position 0 of `g`; `delete_role`: position 1) -/
+theorem delete_helpers_confined (s : Store) (n : String) (i : Nat) (sec' pt' : String)
+    (h1 : ¬ ("g" = sec' ∧ "g" = pt')) (h2 : ¬ ("p" = sec' ∧ "p" = pt')) :
+    ((s.removeFiltered "g" "g" i [n]).1.removeFiltered "p" "p" 0 [n]).1.getPolicy sec' pt' = s.getPolicy sec' pt' := by
+  rw [removeFiltered_other _ "p" "p" sec' pt' 0 [n] h2, removeFiltered_other s "g" "g" sec' pt' i [n] h1]
+
+example (s : Store) (n : String) :
+    ((s.removeFiltered "g" "g" 0 [n]).1.removeFiltered "p" "p" 0 [n]).1.getPolicy "g" "g2" = s.getPolicy "g" "g2" :=
+  delete_helpers_confined s n 0 "g" "g2" (by decide) (by decide)
+
 end Casbin.C13
